@@ -503,3 +503,36 @@ package node
 //@   trusted atomic load, read-only
 //@ func (nd *KVNode) IsLead() bool
 //@   trusted atomic load, read-only
+
+// ---- registering a partition (C15): after a successful InitNamespaceNode the routing tables agree with the
+// configuration the cluster handed down: the namespace meta carries conf.PartitionNum (the modulus of the key
+// hash, also when the namespace was re-created with another partition count) and the partition is registered
+// under its full name ----
+//@ property C15
+//@ noeffect (*sync.RWMutex).Lock (*sync.RWMutex).Unlock (*sync.RWMutex).RLock (*sync.RWMutex).RUnlock sync/atomic.LoadInt32
+//@ extern encoding/json.MarshalIndent func(v interface{}, prefix string, indent string) ([]byte, error)
+//@ extern path.Join func(elem ...string) string
+//@ func NewKVNode(kvopts *KVOptions, config *RaftConfig, transport *rafthttp.Transport, join bool, stopCb func(), clusterInfo common.IClusterInfo, newLeaderChan chan string) (*KVNode, error)
+//@   trusted builds the partition's state machine and raft node; does not touch the namespace manager's tables
+//@   ensures result1 == nil ==> result0 != nil && fresh(result0)
+//@   modifies *config
+//@ func (nsm *NamespaceMgr) onNamespaceStopped(gid uint64, ns string) func()
+//@   trusted returns the stop callback (runs later, not here)
+//@ func (nsm *NamespaceMgr) getWALEng(ns string, dataDir string, id uint64, gid uint32, meta *NamespaceMeta) engine.KVEngine
+//@   trusted opens / reuses the shared raft-log engine; writes meta.walEng only
+//@   modifies meta.walEng
+//@ func (rc *RaftConfig) SetEng(eng engine.KVEngine)
+//@   requires rc != nil
+//@   modifies rc.rockEng
+//@ interface (github.com/youzan/ZanRedisDB/engine.KVEngine).CloseAll func(e engine.KVEngine)
+//@ extern github.com/youzan/ZanRedisDB/common.StringToExpirationPolicy func(s string) (common.ExpirationPolicy, error)
+//@ extern github.com/youzan/ZanRedisDB/common.StringToDataVersionType func(s string) (common.DataVersionT, error)
+//@ extern github.com/youzan/ZanRedisDB/engine.FillDefaultOptions func(opts *engine.RockOptions)
+//@   modifies *opts
+//@ func (nsm *NamespaceMgr) InitNamespaceNode(conf *NamespaceConfig, raftID uint64, join bool) (*NamespaceNode, error)
+//@   opt autoloops
+//@   requires nsm != nil && conf != nil && nsm.machineConf != nil && nsm.nsMetas != nil && nsm.kvNodes != nil && nsm.groups != nil && nsMetasOK(nsm)
+//@   ensures result1 == nil ==> in(conf.BaseName, nsm.nsMetas) && nsm.nsMetas[conf.BaseName] != nil && nsm.nsMetas[conf.BaseName].PartitionNum == conf.PartitionNum
+//@   ensures result1 == nil ==> result0 != nil && in(conf.Name, nsm.kvNodes) && nsm.kvNodes[conf.Name] == result0 && result0.conf == conf
+//@   ensures result1 == nil ==> conf.PartitionNum > 0
+//@   modifies *
